@@ -210,6 +210,12 @@ def scripts(cs):
         + [W(f'/sub/second wave of long names {k}.bin', blob(3, k)) for k in range(1, 20)]
         + [dict(op='mkdir', path='/sub/inner'), dict(op='rename', path='/sub/inner', target='/moved'),
            dict(op='rename', path='/sub/second wave of long names 5.bin', target='/moved/five')])
+    yield 'directory-into-its-own-subtree', [
+        dict(op='mkdir', path='/a.dir'), dict(op='mkdir', path='/a.dir/in'), W('/a.dir/in/f', blob(cs + 2, 10)),
+        dict(op='rename', path='/a.dir', target='/a.dir/in/x'), dict(op='rename', path='/a.dir', target='/A.DIR/in/x'),
+        dict(op='rename', path='/a.dir', target='/A.DIR/IN'), dict(op='rename', path='/A.DIR', target='/a.dir/new'),
+        dict(op='rename', path='/a.dir/in', target='/A.DIR/IN/deeper'), dict(op='rename', path='/a.dir', target='/b.dir'),
+        dict(op='rename', path='/b.dir/in', target='/in')]
     yield 'growth-from-empty-and-far-seeks', [
         dict(op='touch', path='/t'), dict(op='truncate', path='/t', size=2 * cs + 1, buffering=0),
         dict(op='touch', path='/u'), dict(op='append', path='/u', data=blob(cs, 8)),
